@@ -116,7 +116,7 @@ def gen_rec(rng, i, only=None):
     elif k == "T":
         vals = [{"$l": [rng.choice(["red", "green", "blue"]) for _ in range(rng.choice([0, 1, 2, 3]))]}, n]
     else:
-        vals = [rng.random() < 0.5, rng.choice(["q", "r"]), n if n is not None else 0]
+        vals = [rng.choice([True, False, True, False, None]), rng.choice(["q", "r"]), n if n is not None else 0]  # an unset boolean is not False
     meta = {}
     r = rng.random()
     if r < 0.3:
